@@ -88,3 +88,22 @@ func sortTP(x []VerifTP) {
 		return x[i].Partition < x[j].Partition
 	})
 }
+
+// VerifBroker builds a Broker value (id, addr) for response encoding.
+func VerifBroker(id int32, addr string) *Broker { return &Broker{id: id, addr: addr} }
+
+// VerifDecodeMemberMetadata / VerifDecodeAssignment decode the opaque group protocol blobs.
+func VerifDecodeMemberMetadata(b []byte) (*ConsumerGroupMemberMetadata, error) {
+	m := new(ConsumerGroupMemberMetadata)
+	err := decode(b, m)
+	return m, err
+}
+
+func VerifDecodeAssignment(b []byte) (*ConsumerGroupMemberAssignment, error) {
+	m := new(ConsumerGroupMemberAssignment)
+	if len(b) == 0 {
+		return m, nil
+	}
+	err := decode(b, m)
+	return m, err
+}
